@@ -644,7 +644,7 @@ class Array(metaclass=MetaArray):
         if hasattr(self._itemtype, "_dtype"):
             arr = self._buffer.to_nplike(
                 self._offset + self._data_offset, self._itemtype._dtype, cshape
-            ).transpose(self._order)
+            ).transpose([self._order.index(ii) for ii in range(len(shape))])
             assert arr.strides == self._strides
             return arr
         else:
@@ -656,7 +656,7 @@ class Array(metaclass=MetaArray):
         if hasattr(self._itemtype, "_dtype"):
             arr = self._buffer.to_nparray(
                 self._offset + self._data_offset, self._itemtype._dtype, cshape
-            ).transpose(self._order)
+            ).transpose([self._order.index(ii) for ii in range(len(shape))])
             assert arr.strides == self._strides
             return arr
         else:
